@@ -43,6 +43,7 @@ func sortedMapKeys(items map[string]map[string]struct{}) []string {
 }
 
 func withLock(path string, lockType int, fn func() error) error {
+	verifPoint("lock.attempt", path)
 	fd, err := syscall.Open(path, syscall.O_RDONLY, 0)
 	if err != nil && os.IsNotExist(err) {
 		// The lock file is not state; it's just the synchronization primitive.
@@ -57,16 +58,21 @@ func withLock(path string, lockType int, fn func() error) error {
 	}
 	defer syscall.Close(fd)
 
+	verifPoint("lock.flock", path)
 	// Fail-fast: non-blocking lock attempt only
 	if err := syscall.Flock(fd, lockType|syscall.LOCK_NB); err != nil {
 		if errors.Is(err, syscall.EWOULDBLOCK) || errors.Is(err, syscall.EAGAIN) {
+			verifPoint("lock.busy", path)
 			return ErrLockBusy
 		}
 		return err
 	}
+	defer verifPoint("lock.released", path)
 	defer func() {
 		_ = syscall.Flock(fd, syscall.LOCK_UN)
 	}()
+	defer verifPoint("lock.releasing", path)
+	verifPoint("lock.acquired", path)
 	return fn()
 }
 
@@ -81,6 +87,7 @@ func ensureFileExists(path string, mode os.FileMode) error {
 	if !errors.Is(err, os.ErrNotExist) {
 		return err
 	}
+	verifPoint("ensure.create", path)
 	if err := os.WriteFile(path, []byte{}, mode); err != nil {
 		return fmt.Errorf("cannot create %s: %w", path, err)
 	}
@@ -110,6 +117,9 @@ func newShortID(existing map[string]*Task) (string, error) {
 }
 
 func shortID() (string, error) {
+	if id, ok := verifNextID(); ok {
+		return id, nil
+	}
 	buf := make([]byte, 4)
 	if _, err := rand.Read(buf); err != nil {
 		return "", err
